@@ -64,6 +64,10 @@ func registerModels(e *Engine) {
 		if a.curCall != nil && len(a.curCall.Args) >= 4 && len(args) >= 4 {
 			a.chanSend(st, args[2], args[3], a.curCall.Args[2], pos)
 		}
+		if res.Sort == sBool {
+			// gives up only when the context is cancelled
+			a.vc.assume(st.guard, implies(not(res.S), a.vc.envFailed()))
+		}
 		return res
 	}
 	// slices.IndexFunc / ContainsFunc with a closure defined in the verified code: the closure is evaluated
@@ -140,12 +144,24 @@ func registerModels(e *Engine) {
 				keep = append(keep, n.Obj().Name())
 			}
 		}
-		a.vc.noteAssumed("gchan.ReqResp: the responder may write any memory except the fields of the receiver type " + strings.Join(keep, ","))
+		if top.con != nil && top.con.Opts["reqresp-keeps"] != "" {
+			// goroutine-local structures the request does not expose (stated per function, listed as an assumption)
+			for _, k := range strings.Split(top.con.Opts["reqresp-keeps"], ",") {
+				if k = strings.TrimSpace(k); k != "" {
+					keep = append(keep, k)
+				}
+			}
+		}
+		a.vc.noteAssumed("gchan.ReqResp: the responder may write any memory except the fields of the receiver type and of goroutine-local types named by option reqresp-keeps: " + strings.Join(keep, ","))
 		a.havocHeaps(st, true, keep)
 		ntop := a.vc.fresh("top", sInt)
 		a.vc.assume("true", "(>= "+ntop+" "+st.top+")")
 		st.top = ntop
 		res := a.freshVal("reqresp", resT)
+		if len(res.Tup) == 2 && res.Tup[1].Sort == sBool {
+			// ok=false only when the context is cancelled
+			a.vc.assume(st.guard, implies(not(res.Tup[1].S), a.vc.envFailed()))
+		}
 		// the response is a value received on respChan: the responder guarantees that channel's invariant
 		if a.curCall != nil && len(a.curCall.Args) >= 5 && len(res.Tup) == 2 {
 			ci := a.chanInvFor(a.curCall.Args[4])
